@@ -193,7 +193,7 @@ void shard_thread(void *arg) {
         break;
       }
       case O_COMPACT: {
-        if (o.b == 1) { ldb_slice_t b = S(t.lo), e = S(t.hi); ldb_compact(S_.db, &b, &e); } else ldb_compact(S_.db, NULL, NULL);
+        if (o.b >= 1) { ldb_slice_t b = S(t.lo), e = S(t.hi); ldb_compact(S_.db, o.b == 3 ? NULL : &b, o.b == 2 ? NULL : &e); } else ldb_compact(S_.db, NULL, NULL);
         probe("compact_calls");
         break;
       }
@@ -256,7 +256,7 @@ Plan gen_shard(uint64_t seed, const string &prop) {
       int c = (int)r.below(9);
       if (c < 4) o.kind = O_FLUSH;
       else if (c < 8) { o.kind = O_COMPACT_RANGE; o.a = (int)r.below(4); o.b = r.chance(0.5); if (o.b) { o.key = key((int)r.below(nthreads)); o.key2 = key((int)r.below(nthreads)); if (o.key2 < o.key) std::swap(o.key, o.key2); } }
-      else { o.kind = O_COMPACT; o.b = r.chance(0.6); }
+      else { o.kind = O_COMPACT; o.b = r.chance(0.7) ? (int)r.range(1, 3) : 0; }
     }
     else o.kind = O_SWEEP;
     p.ops.push_back(o);
